@@ -1110,6 +1110,9 @@ class Analysis:
         and a TMP copy on another: joining them would pair the wrong pointers)"""
         k = frozenset((vid, v) for vid, v in st.obj.items() if vid in self.pinfo)
         if self.fine:
+            # local object pointers too (absw = negative ? z : w): joining the two bindings would pair `absw may be w` from one path with
+            # `z was written` from the other
+            k = frozenset((vid, v) for vid, v in st.obj.items() if vid in self.pinfo or any(r[0] == "P" for r in v))
             k = (k, frozenset((vid, frozenset(r for (r, f, l, b) in vals)) for vid, vals in st.limb.items()
                               if any(r[0] == "P" for (r, f, l, b) in vals) or any(r[0] in ("T", "H") for (r, f, l, b) in vals)))
         return k
